@@ -1,6 +1,7 @@
 #!/bin/sh
 # seed sweep of the quick tier on the unchanged tree: every line must end in "ok"
 cd "$(dirname "$0")/.."
+[ -n "$VP_RUN_REPO" ] && export VERIF_REPO="$VP_RUN_REPO"
 ./setup.sh >/dev/null 2>&1
 for s in "$@"; do
   for c in C01 C02 C03 C04 C05 C06 C07 C08 C09 C10 C11 C12 C13 C14 C15 C16 C17 C18 C19 C20; do
